@@ -498,8 +498,10 @@ def write_replay(prop: str, payload: dict) -> str:
 
 
 def write_evidence(prop: str, tier: str, seed: int, coverage: dict, assumptions: typing.List[str], wall: float, violations: int) -> None:
-    d = VERIF / "evidence"
-    d.mkdir(exist_ok=True)
+    # evidence/ holds runs against /repo itself only; runs against a scratch copy (VERIF_REPO, used by the seed and
+    # false-alarm tooling) must not overwrite it
+    d = VERIF / "evidence" if REPO == Path("/repo").resolve() else VERIF / "replays" / "evidence-other-tree"
+    d.mkdir(parents=True, exist_ok=True)
     ev = {
         "property_id": prop,
         "tier": tier,
